@@ -25,12 +25,12 @@ type Engine struct {
 	Pures map[string]*PureFn
 	Recs  map[string]*PureFn
 
-	typeIDs   map[string]uint32
-	typeByID  map[uint32]types.Type
-	globals   map[*ssa.Global]uint32
-	funcIDs   map[*ssa.Function]uint64
-	funcByID  map[uint64]*ssa.Function
-	nextRgn   uint32
+	typeIDs     map[string]uint32
+	typeByID    map[uint32]types.Type
+	globals     map[*ssa.Global]uint32
+	funcIDs     map[*ssa.Function]uint64
+	funcByID    map[uint64]*ssa.Function
+	nextRgn     uint32
 	strRegions  map[string]uint32
 	strByRegion map[uint32]string
 	quants      map[*Term]*quantMark
@@ -55,41 +55,41 @@ type Engine struct {
 	NonNil      map[string]bool
 	Frozen      map[string]bool
 	GlobalFacts []*GlobalFact
-	MaxPaths  int
-	InlineMax int
-	ModelTerms func(o *Oblig) []*Term
-	Replayer   func(o *Oblig) (map[string]interface{}, bool, string)
-	SpecSource map[string]string
-	SpecFiles  []string
+	MaxPaths    int
+	InlineMax   int
+	ModelTerms  func(o *Oblig) []*Term
+	Replayer    func(o *Oblig) (map[string]interface{}, bool, string)
+	SpecSource  map[string]string
+	SpecFiles   []string
 
 	// per root verification
 	cur *rootCtx
 }
 
 type rootCtx struct {
-	fn       *ssa.Function
-	key      string
-	spec     *FuncSpec
-	entry    *State // entry state (heap = old)
-	params   map[string]SVal
-	obligs   []*Oblig
-	nameCnt  map[string]int
-	paths    int
-	returns  int
-	abstracted map[string]bool
-	trivial  int
-	retCover []*Oblig
-	err      error
-	modRanges []modRange
-	variant  *Term
-	used     map[string]bool
-	deadline time.Time
+	fn              *ssa.Function
+	key             string
+	spec            *FuncSpec
+	entry           *State // entry state (heap = old)
+	params          map[string]SVal
+	obligs          []*Oblig
+	nameCnt         map[string]int
+	paths           int
+	returns         int
+	abstracted      map[string]bool
+	trivial         int
+	retCover        []*Oblig
+	err             error
+	modRanges       []modRange
+	variant         *Term
+	used            map[string]bool
+	deadline        time.Time
 	skippedThorough map[string]bool
-	keepRegions []*Term
-	keepTargets []Slice // pointer arrays whose pointees are assumed unchanged by calls through function parameters
-	inputs   []InputTerm
-	outputs  []InputTerm
-	frozenAssumed map[*ssa.Global]bool
+	keepRegions     []*Term
+	keepTargets     []Slice // pointer arrays whose pointees are assumed unchanged by calls through function parameters
+	inputs          []InputTerm
+	outputs         []InputTerm
+	frozenAssumed   map[*ssa.Global]bool
 }
 
 type State struct {
@@ -224,12 +224,12 @@ type Oblig struct {
 	Path    string
 	Cover   bool // satisfiability check (expect sat)
 	// result
-	Verdict string // unsat | sat | unknown | trivial
-	Solver  string
-	Secs    float64
-	Model   map[string]string
-	SMTFile string
-	Output  string
+	Verdict    string // unsat | sat | unknown | trivial
+	Solver     string
+	Secs       float64
+	Model      map[string]string
+	SMTFile    string
+	Output     string
 	modelTerms []*Term
 	Replayed   bool
 	Inputs     []InputTerm
